@@ -197,7 +197,9 @@ def mk_case(rnd, cid, cls, svcs):
 def gen_cases(seed, tier):
     rnd = random.Random(seed)
     svcs = services(rnd)
-    cases = [{"kind": "config", "timeout_ms": TIMEOUT_MS, "services": svcs}]
+    # with an odd seed the whole chain-level run goes through a RESTARTED proxy (a router restored from the state file the deploys
+    # wrote): every record must be the same - the logged header lists, service and target names survive the restart
+    cases = [{"kind": "config", "timeout_ms": TIMEOUT_MS, "services": svcs, "restored": seed % 2 == 1}]
     cid = [0]
 
     def add(cls):
